@@ -15,7 +15,7 @@ import (
 func init() {
 	register(&PropRules{
 		ID:      "C18",
-		Explain: "Configuration loading and reload — structural part: (C18.1) strict decoding: KnownFields(true) is called on the decoder before Decode, the decoded file is the configfile parameter and a decode error is returned; (C18.2) validation guards: fromConfig returns nil only under BaseDir != \"\", and every loop iteration that registers a parameter set has ID != 0, exactly one algorithm block, and the hasher constructor's err == nil; after the loop Default == 0 is accepted only with no sets and Default != 0 only if that set exists; (C18.3) accepted ⇒ usable: every parameter the KDF panics on (guards read from the dependency's SSA: argon2 time<1, threads<1; plus the hand-derived keyLen<1) is excluded by the hasher constructor on every accepting path, and hashers are constructed only by their constructors; (C18.4) reload is all-or-nothing: s.dir is replaced only under NewDirFromConfig(s.configfile) err==nil ∧ newdir.Check()==nil and by that very object; the fields of a Dir are written only while it is being constructed (NewDir, NewDirFromConfig, fromConfig). Round 3 (C18.1): no type below the decoded root has an UnmarshalYAML that re-decodes through (*yaml.Node).Decode (fresh decoder, KnownFields lost), and no inline map.",
+		Explain: "Configuration loading and reload — structural part: (C18.1) strict decoding: KnownFields(true) is called on the decoder before Decode, the decoded file is the configfile parameter and a decode error is returned; (C18.2) validation guards: fromConfig returns nil only under BaseDir != \"\", and every loop iteration that registers a parameter set has ID != 0, exactly one algorithm block, and the hasher constructor's err == nil; after the loop Default == 0 is accepted only with no sets and Default != 0 only if that set exists; (C18.3) accepted ⇒ usable: every parameter the KDF panics on (guards read from the dependency's SSA: argon2 time<1, threads<1; plus the hand-derived keyLen<1) is excluded by the hasher constructor on every accepting path, and hashers are constructed only by their constructors; (C18.4) reload is all-or-nothing: s.dir is replaced only under NewDirFromConfig(s.configfile) err==nil ∧ newdir.Check()==nil and by that very object; the fields of a Dir are written only while it is being constructed (NewDir, NewDirFromConfig, fromConfig). Round 3 (C18.1): no type below the decoded root has an UnmarshalYAML that re-decodes through (*yaml.Node).Decode (fresh decoder, KnownFields lost), and no inline map. Round 4 (C18.3): every integer division or remainder reachable from NewDirFromConfig has a divisor that is a non-zero constant or known non-zero by the facts of every path reaching it.",
 		Undec:   []string{"exactness over all YAML documents (the decoder itself is trusted)", "memory exhaustion for huge cost/memory values", "signal delivery and in-flight requests at run time (the swap being inside the dispatcher is C11.4)"},
 		Run:     runC18,
 		Floors:  map[string]int{"C18.1": 1, "C18.2": 3, "C18.3": 4, "C18.4": 2},
@@ -26,6 +26,7 @@ func runC18(c *an.Ctx, p *an.Prog, thorough bool) {
 	c181(c, p)
 	c182(c, p)
 	kdfPreconditions(c, p, "C18.3")
+	divisorsNonZero(c, p, "C18.3")
 	c184(c, p)
 }
 
@@ -846,4 +847,83 @@ func registrationLoop(p *an.Prog, fc *ssa.Function) (*ssa.Function, []*ssa.Basic
 	}
 	walk(fc, 0)
 	return owner, hdrs
+}
+
+// divisorsNonZero: loading a configuration never crashes — besides the KDF preconditions above, the other way
+// arithmetic on configured numbers can panic is an integer division (or remainder) by zero. Every such operation in
+// the functions the loader reaches (module code, static calls) must have a divisor that is a non-zero constant or is
+// known to be non-zero by the facts of every path that reaches it (a range check placed *after* the division is too late).
+func divisorsNonZero(c *an.Ctx, p *an.Prog, rule string) {
+	root := p.Func("/store", "NewDirFromConfig")
+	if !need(c, rule, root, "store.NewDirFromConfig") {
+		return
+	}
+	seen := map[*ssa.Function]bool{}
+	var fns []*ssa.Function
+	var walk func(f *ssa.Function, d int)
+	walk = func(f *ssa.Function, d int) {
+		if f == nil || seen[f] || d > 8 || !p.InRepo(f) || len(f.Blocks) == 0 {
+			return
+		}
+		seen[f] = true
+		fns = append(fns, f)
+		for _, b := range f.Blocks {
+			for _, in := range b.Instrs {
+				if ci, ok := in.(ssa.CallInstruction); ok {
+					walk(ci.Common().StaticCallee(), d+1)
+				}
+			}
+		}
+		for _, af := range f.AnonFuncs {
+			walk(af, d+1)
+		}
+	}
+	walk(root, 0)
+	n, nDiv := 0, 0
+	for _, f := range fns {
+		n++
+		if an.Inlinable(f) {
+			continue // decided inside the functions it is interpreted in
+		}
+		ord := &ordinal{}
+		for _, in := range an.DeepInstrs(f) {
+			bo, ok := in.(*ssa.BinOp)
+			if !ok || !(bo.Op.String() == "/" || bo.Op.String() == "%") {
+				continue
+			}
+			if bt, isBasic := bo.Y.Type().Underlying().(*types.Basic); !isBasic || bt.Info()&types.IsInteger == 0 {
+				continue
+			}
+			if k, isConst := bo.Y.(*ssa.Const); isConst && k.Value != nil && k.Int64() != 0 {
+				continue
+			}
+			nDiv++
+			var bad []string
+			paths := 0
+			er := an.EnumPaths(f, nil, in, func(s *an.PathState) {
+				paths++
+				d := s.T(bo.Y)
+				for _, t := range []*an.Term{d, stripWiden(d)} {
+					if v, isC := t.ConstInt(); isC && v != 0 {
+						return
+					}
+					lo, hi := s.Interval(t)
+					if lo >= 1 || hi <= -1 {
+						return
+					}
+					for _, a := range s.Atoms {
+						if a.Op == "!=" && a.B != nil && a.A.K == t.K && a.B.IsConst("0") {
+							return
+						}
+					}
+				}
+				bad = append(bad, "integer division by "+shortTerm(d)+" which may be zero on path "+s.BlockPath()+": a configuration with that value makes the loader panic instead of returning an error")
+			})
+			if !er.Complete {
+				bad = append(bad, "path limit")
+			}
+			c.Check(len(bad) == 0 && paths > 0, rule, fnKey(f)+"|"+ord.next("divisor-nonzero"), p.InstrPos(in), fmt.Sprintf("divisor known non-zero on all %d paths", paths), strings.Join(uniqS(bad), "; "))
+		}
+	}
+	c.OK(rule, "loader|integer-divisions", "-", fmt.Sprintf("%d module functions reachable from NewDirFromConfig, %d integer divisions with a non-constant divisor, each decided above", n, nDiv))
 }
